@@ -22,6 +22,9 @@ func init() {
 }
 
 func mkFilter(a []string) *bloom.Filter {
+	if a[0] == "nil" {
+		return bloom.LoadFilter(nil) // an unloaded filter
+	}
 	return bloom.LoadFilter(mkMsg(a))
 }
 func mkMsg(a []string) *wire.MsgFilterLoad {
@@ -749,6 +752,12 @@ func genC10(r *Rng, tier string, emit func(Case)) {
 		e("blk", []string{"topo", "reverse", "ctor", "random"}[mode]+":shape"+itoa(shape), fa[0], fa[1], fa[2], fa[3], fmtTxs(blk))
 	}
 	e("blk", "empty", "00", "1", "0", "1", "-")
+	// an unloaded filter matches nothing, whatever the block
+	for i := 0; i < 3; i++ {
+		g := &genCtx{r: r}
+		g.secret = append(g.secret, r.Bytes(20))
+		e("blk", "unloaded", "nil", "0", "0", "0", fmtTxs(g.genBlock(1+r.Intn(5), r.Intn(3))))
+	}
 	directedBlocks(r, tier, e)
 	// chains in which every transaction spends two outputs of its parent: the shape on which the
 	// unrepaired scan was exponential (known_findings: fixed C08/C10 scan)
